@@ -589,6 +589,17 @@ int main(int argc, char **argv) {
       for (auto &r : rows) { r.minX += dx; r.maxX += dx; r.minY += dy; r.maxY += dy; }
       c.setCellX(x); c.setCellY(y); c.setRows(rows);
     }
+    // one case in four: net weights other than 1, zero included (accepted by addNet/setNets/setNetWeights).  The property is
+    // about the half-perimeter wirelength, which counts every net once whatever its weight: a detailed placer that leaves
+    // zero-weight nets out of its objective moves cells against them
+    if (k % 4 == 3 && c.nbNets() > 0) {
+      vh::Rng gw = vh::Rng::forCase(a.seed ^ 0x3e167ull, k);
+      static const float ws[] = {0.0f, 0.0f, 0.25f, 1.0f, 2.75f};
+      std::vector<float> w(c.nbNets());
+      for (auto &v : w) v = ws[gw.range(0, 4)];
+      w[gw.range(0, (long long)w.size() - 1)] = 0.0f;
+      c.setNetWeights(w);
+    }
     // one case in three: an object with a past, from a stream of its own (the circuits of the other cases are what they
     // were); half of them on rows as setupRows produces them (still the C01 domain: uniform disjoint rows, only wider)
     po = PastOf();
